@@ -105,6 +105,8 @@ class Inference(object):
 
         elif isinstance(self.model, DynamicBayesianNetwork):
             self.start_bayesian_model = BayesianNetwork(self.model.get_intra_edges(0))
+            # slice-0 variables without intra-slice edges are nodes of the initial network too
+            self.start_bayesian_model.add_nodes_from(self.model.get_slice_nodes(0))
             self.start_bayesian_model.add_cpds(*self.model.get_cpds(time_slice=0))
             cpd_inter = [
                 self.model.get_cpds(node) for node in self.model.get_interface_nodes(1)
